@@ -21,7 +21,8 @@ Local Open Scope N_scope.
 (* ---------- common::Rnd ---------- *)
 
 Definition rnd_step (s : N) : N * N :=
-  let s' := N.land ((s * 214013 + 2531011) mod 4294967296) 0x7fffffff in
+  (* wrapping_mul / wrapping_add keep the low 32 bits (N.land .. 0xffffffff = mod 2^32, cheaper to evaluate) *)
+  let s' := N.land (N.land (s * 214013 + 2531011) 0xffffffff) 0x7fffffff in
   (N.shiftr s' 16, s').
 
 Definition next_u32 (s : N) : N * N :=
